@@ -408,6 +408,17 @@ def run_real(spec, out):
                 out.count("probe_args_unavailable")
                 return
             live = ev["live"]
+            if state.get("post_history") is not None and not a.get("is_force_update") and not spec.get("switch"):
+                # between two updates the stored history belongs to the solver alone: what this update finds is what the previous one left
+                # (unless a failed line search reset it to its last point)
+                pX, pG = state["post_history"]
+                cX, cG = list(a["X"]), list(a["G"])
+                out.count("histories_re-read_at_the_next_update")
+                same = len(cX) == len(pX) and all(np.array_equal(u, v, equal_nan=True) for u, v in zip(cX, pX)) and all(np.array_equal(u, v, equal_nan=True) for u, v in zip(cG, pG))
+                reset = len(cX) == 1 and len(pX) >= 1 and np.array_equal(cX[0], pX[-1], equal_nan=True) and np.array_equal(cG[0], pG[-1], equal_nan=True)
+                if not (same or reset) and not out.violations:
+                    out.violate("history_changed_between_updates", f"run {spec['problem']['family']} update #{ic.calls['update_lbfgs_matrices']}: the stored points / gradients "
+                                f"this update starts from are not the ones the previous update left ({len(pX)} -> {len(cX)} points)", source="run")
             pre_fields = mats_fields(a["mats"])
             c0 = (out.counters.get("rejected", 0), out.counters.get("evictions", 0))
             judge_update(out, list(a["X"]), list(a["G"]), pre_fields, a["xk"], a["gk"], a["maxcor"], a["eps"],
@@ -417,6 +428,7 @@ def run_real(spec, out):
             state["nrej"] += out.counters.get("rejected", 0) - c0[0]
             state["nev"] += out.counters.get("evictions", 0) - c0[1]
             state["last_ret"] = ev["ret_live"]
+            state["post_history"] = ([np.array(v, copy=True) for v in live["X"]], [np.array(v, copy=True) for v in live["G"]])
         elif ev["name"] == "get_cauchy_point":
             fr = ev.get("frame") or {}
             if ev.get("frame_fn") != "minimize_lbfgsb" or "X" not in fr or "G" not in fr:
@@ -472,6 +484,7 @@ def run_real(spec, out):
                 if spec.get("restart_maxcor_drop") and m_ck >= 2:
                     cfg2["maxcor"] = max(1, m_ck - int(spec["restart_maxcor_drop"]))  # a smaller memory than the checkpoint holds
                     out.count("restarted_runs_with_smaller_memory")
+                state["post_history"] = None  # (a new call: its history is the one restored from the checkpoint)
                 state["expect_history"] = dict(sk=np.array(ck.hess_inv.sk, copy=True), x=np.array(ck.x, copy=True), maxcor=cfg2["maxcor"],
                                                scale=float(np.max(np.abs(ck.x)) + np.max(np.abs(np.cumsum(ck.hess_inv.sk[::-1], axis=0))) if m_ck else 1.0))
                 tr = probes.run_min(P, cfg2, checkpoint=ck, x0=np.array(ck.x, dtype=float, copy=True))
